@@ -3,7 +3,7 @@
 (* C04 - handshake messages decode to the values an RFC encoder wrote;     *)
 (* structurally invalid ones fail.                                         *)
 (***************************************************************************)
-EXTENDS Calls, Emit
+EXTENDS Corpus, Emit
 
 C == INSTANCE Calls WITH RangeMode <- FALSE
 
@@ -17,14 +17,7 @@ MapSeq(ixs, F(_)) == [j \in 1..Len(ixs) |-> F(ixs[j])]
 (* ---- value domains: per-field boundary sets *)
 Sids     == <<None, Some(<<7>>), Some(Fill(3, 32))>>
 ExtOpts  == <<None, Some(<<>>), Some(<<0, 23, 0, 0>>), Some(Fill(6, 300))>>
-(* hellos carrying the RFC 8446 magic randoms and extension blocks whose decoding has corner cases *)
-MagicRandoms == <<HrrRandom, Fill(1, 24) \o Downgrade12, Fill(2, 24) \o Downgrade11>>
-CornerExts == <<Some(<<0, 43, 0, 1, 0>>), Some(<<0, 43, 0, 2, 3, 4>>), Some(<<0, 35, 0, 3, 1, 2, 3>>), Some(<<0, 43, 0, 3, 2, 3, 4, 0, 51, 0, 2, 0, 29>>)>>
-MagicVals == Concat([r \in 1..3 |-> Concat([x \in 1..4 |-> <<
-   [t |-> "ServerHello", ver |-> <<769, 770, 771>>[r], random |-> MagicRandoms[r], sid |-> Sids[(x % 3) + 1], cipher |-> 4865, comp |-> 0, ext |-> CornerExts[x]],
-   [t |-> "ServerHello", ver |-> 771, random |-> MagicRandoms[r], sid |-> None, cipher |-> 4866, comp |-> 0, ext |-> ExtOpts[x]],
-   [t |-> "ClientHello", ver |-> 771, random |-> MagicRandoms[r], sid |-> Sids[(x % 3) + 1], ciphers |-> <<4865>>, comp |-> <<0>>, ext |-> CornerExts[x]],
-   [t |-> "ServerHelloV13Draft18", ver |-> 32530, random |-> MagicRandoms[r], cipher |-> 4865, ext |-> CornerExts[x]] >>])])
+MagicVals == CxMagicHellos      \* Corpus.tla: the RFC 8446 magic randoms x corner-case extension blocks
 LongChain(n) == [t |-> "Certificate", chain |-> [j \in 1..n |-> IF j % 97 = 0 THEN <<48, j % 256>> ELSE <<>>]]
 CiphOpts == <<<<>>, <<47>>, <<1, 2, 65535>>>>
 CompOpts == <<<<>>, <<0>>, Fill(1, 255)>>
